@@ -19,7 +19,7 @@ LEVEL = "proof"
 EXHAUSTIVE = True
 RULE = ("(i) exhaustive: every byte string up to length L (quick 3, thorough 4) over an alphabet with one representative "
         "per lexical byte class, implementation run at BUFSIZ 1..k and 4096 and compared with Model/Lexer.v's chunk layer "
-        "(tokenize, at BUFSIZ 1 and 4096) evaluated by vm_compute inside Coq; (ii) random byte strings up to 300 bytes "
+        "(tokenize, at BUFSIZ 1 and 16 > L) evaluated by vm_compute inside Coq; (ii) random byte strings up to 300 bytes "
         "biased to delimiters/escapes; (iii) spliced token spellings. A case is non-trivial when it yields at least one "
         "token; distinct = distinct (data, BUFSIZ).")
 TRUSTED = [
@@ -175,7 +175,7 @@ def correspondence(ctx):
         ref = property_oracle(ctx, family, data, sizes)
         want = canon_impl(data, ref)
         nontriv = not isinstance(ref, tuple) and len(ref) > 0
-        for b in ([1, 4096] if family == "exhaustive" else [2, sizes[-1]]):
+        for b in ([1, 16] if family == "exhaustive" else [2, sizes[-1]]):   # nat literals: keep them small
             ctx.case(family, (data, b), nontrivial=nontriv,
                      sample={"data": data.hex(), "bufsiz": b, "tokens": plain(ref)})
             cases.append(("(%s, %s)" % (gnat(b), gbytes(data)), want))
